@@ -28,9 +28,10 @@ static void gen_callgraph(Prog &p, Rng &r, const Caps &caps0, bool allow_recursi
   }
   if (r.chance(1, 4)) calls[0].push_back(1 + r.below(nf - 1)); // repeated call from main
   std::vector<bool> recursive(nf, false);
-  if (allow_recursion && r.chance(1, 3)) recursive[1 + r.below(nf - 1)] = true;
+  if (allow_recursion && r.chance(1, 2)) recursive[1 + r.below(nf - 1)] = true;
+  if (allow_recursion && r.chance(1, 4)) recursive[1 + r.below(nf - 1)] = true; // possibly a second one, possibly a member of the mutual pair
   int mutual_a = -1, mutual_b = -1;
-  if (allow_recursion && nf >= 3 && r.chance(1, 6)) {
+  if (allow_recursion && nf >= 3 && r.chance(1, 3)) {
     mutual_a = 1 + r.below(nf - 1);
     mutual_b = 1 + r.below(nf - 1);
     if (mutual_a == mutual_b) mutual_a = mutual_b = -1;
